@@ -276,7 +276,82 @@ func (p *Program) CalleeName(c ssa.CallInstruction) string {
 		return p.funcRef(f)
 	}
 
+	// a call through a captured or forwarded function value that is a known top-level function or
+	// method expression (`op := (*T).M; …; op(x)`) is a call of that function
+	if f := p.funcValue(cc.Value, 0); f != nil {
+		return p.funcRef(f)
+	}
+
 	return "dyn:" + p.desc(cc.Value, 2)
+}
+
+// funcValue resolves a function-typed value to the top-level function it denotes, looking through
+// forwarding, captured variables and method-expression thunks; nil if it is not statically known.
+func (p *Program) funcValue(v ssa.Value, depth int) *ssa.Function {
+	if depth > 4 {
+		return nil
+	}
+
+	switch x := Fwd(v).(type) {
+	case *ssa.Function:
+		if x.Parent() != nil {
+			return nil
+		}
+
+		if strings.HasSuffix(x.Name(), "$thunk") || strings.HasSuffix(x.Name(), "$bound") {
+			var only *ssa.Function
+
+			n := 0
+
+			for _, b := range x.Blocks {
+				for _, in := range b.Instrs {
+					if c, ok := in.(*ssa.Call); ok {
+						n++
+						only = c.Call.StaticCallee()
+					}
+				}
+			}
+
+			if n == 1 && only != nil {
+				return only
+			}
+
+			return nil
+		}
+
+		return x
+	case *ssa.FreeVar:
+		fn := x.Parent()
+		if mc := p.ClosureSite(fn); mc != nil {
+			for i, fv := range fn.FreeVars {
+				if fv == x && i < len(mc.Bindings) {
+					return p.funcValue(mc.Bindings[i], depth+1)
+				}
+			}
+		}
+	case *ssa.UnOp:
+		// load of a variable captured by reference that is assigned exactly once
+		if x.Op != token.MUL {
+			return nil
+		}
+
+		var al *ssa.Alloc
+
+		switch a := x.X.(type) {
+		case *ssa.FreeVar:
+			al = p.freeVarAlloc(a)
+		case *ssa.Alloc:
+			al = a
+		}
+
+		if al != nil {
+			if st := SingleStore(al); st != nil {
+				return p.funcValue(st.Val, depth+1)
+			}
+		}
+	}
+
+	return nil
 }
 
 func (p *Program) funcRef(f *ssa.Function) string {
@@ -400,6 +475,12 @@ func (p *Program) desc(v ssa.Value, depth int) string {
 
 		return "const:" + x.Value.String()
 	case *ssa.Parameter:
+		// the body of `go f(args)` with f spawned from exactly one place is described like the
+		// function literal it could equally be: its parameters are what the spawner passed
+		if arg := p.goSiteArg(x); arg != nil && depth > 0 {
+			return "free:" + p.desc(arg, depth-1)
+		}
+
 		for i, prm := range x.Parent().Params {
 			if prm == x {
 				return fmt.Sprintf("param#%d", i)
@@ -763,4 +844,63 @@ func (p *Program) MayHoldCall(v ssa.Value, globs ...string) bool {
 	}
 
 	return false
+}
+
+// goSiteArg returns the argument bound to parameter prm when prm's function is called from exactly
+// one place in the module and that place is a `go` statement.
+func (p *Program) goSiteArg(prm *ssa.Parameter) ssa.Value {
+	fn := prm.Parent()
+	if fn == nil || fn.Parent() != nil {
+		return nil
+	}
+
+	if p.callSites == nil {
+		p.callSites = map[*ssa.Function][]ssa.CallInstruction{}
+
+		var scan func(f *ssa.Function)
+
+		scan = func(f *ssa.Function) {
+			for _, b := range f.Blocks {
+				for _, in := range b.Instrs {
+					if c, ok := in.(ssa.CallInstruction); ok {
+						if g := c.Common().StaticCallee(); g != nil && g.Parent() == nil {
+							if o := g.Origin(); o != nil {
+								g = o
+							}
+
+							p.callSites[g] = append(p.callSites[g], c)
+						}
+					}
+				}
+			}
+
+			for _, a := range f.AnonFuncs {
+				scan(a)
+			}
+		}
+
+		for _, f := range p.AllOwnFuncs() {
+			if f.Parent() == nil {
+				scan(f)
+			}
+		}
+	}
+
+	sites := p.callSites[fn]
+	if len(sites) != 1 {
+		return nil
+	}
+
+	g, ok := sites[0].(*ssa.Go)
+	if !ok || len(g.Call.Args) != len(fn.Params) {
+		return nil
+	}
+
+	for i, q := range fn.Params {
+		if q == prm {
+			return g.Call.Args[i]
+		}
+	}
+
+	return nil
 }
